@@ -15,7 +15,7 @@ import (
 	"github.com/irismod/service/types"
 )
 
-const nScripts = 45
+const nScripts = 47
 
 func runScript(a *App, mon *Mon, seed int64, v int) {
 	p := baseParams()
@@ -677,12 +677,46 @@ func runScript(a *App, mon *Mon, seed int64, v int) {
 		id := s.call("svc", all, cons, 100, 4, false, true, 5, 2)
 		s.block() // batch 1
 		answer(id, p1, p2, p3)
-		blocks(5) // batch 2 of 2
+		blocks(5)              // batch 2 of 2
 		answer(id, p1, p2, p3) // completed early
 		s.ctl("pause", id, cons)
 		blocks(5) // its expiry block passes while paused
 		s.ctl("start", id, cons)
 		blocks(8)
+	case 45:
+		// one transaction carrying a call and, as its next messages, control operations on the
+		// context just created signed by somebody else (a transaction may have several signers);
+		// two withdrawals of one owner in one block with an earning in between
+		id := s.call("svc", all, cons, 100, 3, false, true, 4, 3)
+		s.r.MsgTx(types.NewMsgPauseRequestContext(unhex(id), s.A.Stranger), "a stranger, in the transaction that created the context", true)
+		s.r.MsgTx(types.NewMsgUpdateRequestContext(unhex(id), nil, coins(1), 0, 0, 0, s.A.Stranger), "a stranger, same transaction", true)
+		s.r.MsgTx(types.NewMsgKillRequestContext(unhex(id), s.A.Consumers[1]), "another consumer, same transaction", true)
+		mid := s.modCreate("svc", all, cons, 100, 3, true, 4, 3, 1)
+		s.r.Msg(types.NewMsgKillRequestContext(unhex(mid), cons), "consumer of a module context")
+		s.block()
+		answer(id, p1)
+		answer(mid, p1)
+		s.r.Msg(types.NewMsgWithdrawEarnedFees(o1, nil), "whole-owner withdrawal")
+		answer(id, p2)
+		s.r.Msg(types.NewMsgWithdrawEarnedFees(o1, nil), "a second one in the same block, after another earning")
+		answer(mid, p2)
+		s.r.Msg(types.NewMsgWithdrawEarnedFees(o1, p2), "and a per-provider one")
+		blocks(5)
+	case 46:
+		// outputs that break several clauses of the output schema at once (header and body both of
+		// the wrong type): whatever is stored about them is the same on every node
+		id := s.call("svc", all, cons, 100, 3, false, true, 4, 3)
+		outs := []string{"{ \"header\" : [ ] , \"body\" : \"\\u007b\\u007d\" }", `{"header":1,"body":2}`, `{"header":"x","body":[],"extra":null}`,
+			`{"body":"b","header":false}`, `{"header":null,"body":null}`, `{"header":[1,2],"body":[3]}`}
+		for b := 0; b < 3; b++ {
+			s.block()
+			for i, pr := range all {
+				for _, rid := range s.pendingOf(id, pr) {
+					s.r.Msg(types.NewMsgRespondService(unhex(rid), pr, goodResult, outs[(2*b+i)%len(outs)]), "output with header and body both malformed")
+				}
+			}
+			blocks(3)
+		}
 	}
 	s.done()
 }
